@@ -291,10 +291,13 @@ class Sim:
                 search_path=[os.path.join(self.root, d) for d in DIRS], **kw)
         return key, self.loaders[key]
 
-    def op_load(self, n, form, auto_reload, ext):
+    def op_load(self, n, form, auto_reload, ext, fmt=None):
         """form: 'ext' n0.pt | 'bare' n0 | 'abs' absolute | 'pad' ' n0.pt '
-        | 'dotted' n0.v2.pt (never exists)"""
+        | 'dotted' n0.v2.pt (never exists); fmt: None | 'xml' | 'text' (the
+        kind of template asked for: the same name in another format is
+        another template)"""
         key, loader = self.loader(auto_reload, ext)
+        key = key + (("text" if fmt == "text" else "xml"),)
         base = NAMES[n]
         if form == "ext":
             spec, fname = base + ".pt", base + ".pt"
@@ -312,6 +315,13 @@ class Sim:
                 return
             spec, fname = existing[-1], None
         cached = self.loaded.get((key, spec))
+        if cached is not None:
+            # (the model keeps no reference of its own: it is the loader
+            # that has to keep the instance)
+            cached = cached()
+            if cached is None:
+                raise Violation("load(%r): the loader no longer has the "
+                                "instance it returned earlier" % spec)
         if fname is None:
             want = spec
         else:
@@ -322,7 +332,7 @@ class Sim:
                     want = cand
                     break
         try:
-            t = loader.load(spec)
+            t = loader.load(spec) if fmt is None else loader.load(spec, fmt)
         except ValueError:
             if cached is not None:
                 raise Violation("load(%r) raised ValueError after it had "
@@ -331,6 +341,12 @@ class Sim:
                 raise Violation("load(%r) raised ValueError, %s exists" % (
                     spec, want))
             return
+        from chameleon import PageTemplateFile, PageTextTemplateFile
+        wanted_cls = PageTextTemplateFile if fmt == "text" \
+            else PageTemplateFile
+        if type(t) is not wanted_cls:
+            raise Violation("load(%r, %r) returned a %s" % (
+                spec, fmt, type(t).__name__))
         if cached is not None:
             if t is not cached:
                 raise Violation("load(%r) returned a different instance" %
@@ -342,7 +358,8 @@ class Sim:
         if os.path.realpath(str(t.filename)) != os.path.realpath(want):
             raise Violation("load(%r) resolved to %s, first match on the "
                             "search path is %s" % (spec, t.filename, want))
-        self.loaded[(key, spec)] = t
+        import weakref
+        self.loaded[(key, spec)] = weakref.ref(t)
 
     def op_use_load(self, d, n, other, via_loader):
         """A page in directory d uses metal:use-macro="load: <other>.pt";
@@ -353,11 +370,15 @@ class Sim:
             return
         sib = self.path(d, other)
         early = self.path(0, other)
-        if sib not in self.files or early not in self.files:
-            return
+        # (the file next to the page and its namesake in the first search
+        # directory are created when they do not exist yet)
+        if early not in self.files:
+            self.op_write(0, other, [1, 0, False], 1_000_000_001)
+        if sib not in self.files:
+            self.op_write(d, other, [2, 0, False], 1_000_000_002)
         if broken(self.files[sib][0]) or broken(self.files[early][0]):
             return
-        page = os.path.join(self.root, DIRS[d], "page%d_%d.pt" % (n, other))
+        page = os.path.join(self.root, DIRS[d], "page%d_%d_%d.pt" % (d, n, other))
         # (the page is kept: a later use renders the same page object after
         # the file it loads may have been rewritten)
         t = self.pages.get((page, via_loader))
@@ -382,6 +403,12 @@ class Sim:
                     page, "the earlier search directory" if got == wrong
                     else "something else: %r (expected %r)" % (got, want)))
 
+
+    def op_collect(self):
+        """A garbage collection (what the program does not hold on to may
+        go - what the loader has handed out it has to keep)."""
+        import gc
+        gc.collect()
 
     def op_use_whole(self, d, n):
         """The template object itself (not one of its macros) is the target
@@ -438,11 +465,16 @@ class Sim:
         t = loader.load(spec)
         cached = self.loaded.get((key, spec))
         if cached is not None:
+            cached = cached()
+            if cached is None:
+                raise Violation("load(%r): the loader no longer has the "
+                                "instance it returned earlier" % spec)
             if t is not cached:
                 raise Violation("load(%r) returned a different instance" %
                                 spec)
             return
-        self.loaded[(key, spec)] = t
+        import weakref
+        self.loaded[(key, spec)] = weakref.ref(t)
         if os.path.realpath(str(t.filename)) != os.path.realpath(want):
             raise Violation("load(%r) resolved to %s, expected %s (the name "
                             "has a dot: no extension is added)" % (
@@ -537,7 +569,7 @@ def campaign(args):
     from hypothesis.stateful import (RuleBasedStateMachine, rule,
                                      run_state_machine_as_test)
     stats = {"machines": 0, "steps": 0, "nontrivial": set(), "ops": {},
-             "failures": [], "samples": []}
+             "failures": [], "samples": [], "found": []}
     versions = st.tuples(st.sampled_from([0] + list(range(1, 10)) * 2),
                          st.integers(0, 7), st.booleans()).map(list)
     mtimes = st.integers(1_000_000_000, 1_000_000_040)
@@ -556,6 +588,8 @@ def campaign(args):
             self.interesting = False
 
         def do(self, *op):
+            if stats["found"]:
+                return          # (a finding is kept; the rest is skipped)
             op = list(op)
             self.ops.append(op)
             stats["steps"] += 1
@@ -563,8 +597,10 @@ def campaign(args):
             try:
                 self.sim.apply(op)
             except Violation as v:
-                raise AssertionError(json.dumps(
-                    {"ops": self.ops, "message": str(v)}))
+                # recorded, not raised: nothing is replayed by the library
+                # (a finding may depend on when the garbage collector ran)
+                stats["found"].append({"ops": list(self.ops),
+                                       "message": str(v)})
 
         @rule(d=D, n=N, v=versions, t=mtimes)
         def write(self, d, n, v, t):
@@ -599,13 +635,18 @@ def campaign(args):
 
         @rule(n=N, form=st.sampled_from(["ext", "bare", "abs", "pad",
                                          "dotted"]),
-              ar=st.booleans(), ext=st.sampled_from([None, ".pt", "pt"]))
-        def load(self, n, form, ar, ext):
-            self.do("load", n, form, ar, ext)
+              ar=st.booleans(), ext=st.sampled_from([None, ".pt", "pt"]),
+              fmt=st.sampled_from([None, None, "xml", "text", "text"]))
+        def load(self, n, form, ar, ext, fmt):
+            self.do("load", n, form, ar, ext, fmt)
 
         @rule(d=D, n=N, other=N, via=st.booleans())
         def use_load(self, d, n, other, via):
             self.do("use_load", d, n, other, via)
+
+        @rule()
+        def collect(self):
+            self.do("collect")
 
         @rule(d=D, n=N)
         def use_whole(self, d, n):
@@ -625,23 +666,22 @@ def campaign(args):
                     stats["samples"].append({"ops": self.ops[:25]})
             shutil.rmtree(self.root, ignore_errors=True)
 
-    try:
-        run_state_machine_as_test(
-            hypothesis.seed(seed)(M),
-            settings=settings(max_examples=n, stateful_step_count=steps,
-                              deadline=None, database=None,
-                              report_multiple_bugs=False,
-                              phases=[hypothesis.Phase.generate],
-                              suppress_health_check=list(HealthCheck)))
-    except AssertionError as e:
-        try:
-            info = json.loads(e.args[0])
-        except Exception:  # noqa: BLE001
-            info = {"ops": [], "message": str(e.args)[:2000]}
+    run_state_machine_as_test(
+        hypothesis.seed(seed)(M),
+        settings=settings(max_examples=n, stateful_step_count=steps,
+                          deadline=None, database=None,
+                          report_multiple_bugs=False,
+                          phases=[hypothesis.Phase.generate],
+                          suppress_health_check=list(HealthCheck)))
+    for info in stats.pop("found")[:1]:
         # Hypothesis' shrinker is slow on file-system machines: minimise
         # the history ourselves by dropping operations while it still fails
-        info["ops"] = minimise(info["ops"])
-        info["message"] = run_ops(info["ops"]) or info["message"]
+        if run_ops(info["ops"]) is not None:
+            info["ops"] = minimise(info["ops"])
+            info["message"] = run_ops(info["ops"]) or info["message"]
+        else:
+            info["note"] = "seen once; does not repeat when the history " \
+                "is replayed (timing dependent)"
         stats["failures"].append(info)
     stats["nontrivial"] = sorted(stats["nontrivial"])
     return stats
